@@ -104,6 +104,11 @@ type tcase struct {
 	// context in every Start hook, as a tracing one does); failures are contained and
 	// reported exactly as without it
 	Observed bool `json:"with_observability,omitempty"`
+	// SecondBus: after the bus under test, a second bus is built from the SAME option values
+	// for the store and the persistence timeout (a shared []Option) plus an error handler of
+	// its own, and publishes one event. Nothing of the second bus may reach into the first:
+	// failures of the first bus are reported to the first bus's handler only
+	SecondBus bool `json:"second_bus_from_the_same_option_values,omitempty"`
 }
 
 type obsImpl struct{ starts, completes, failed int }
@@ -140,6 +145,9 @@ func (t tcase) String() string {
 	}
 	if t.Observed {
 		sa += " withObservability"
+	}
+	if t.SecondBus {
+		sa += " secondBusFromTheSameOptionValues"
 	}
 	return fmt.Sprintf("pattern=[%s] errorHandler=%v preloaded=%d lateSet=%v reentrant=%v hookAfterStore=%v%s", strings.Join(p, ","), t.Handler, t.Preloaded, t.LateSet, t.Reentrant, t.HookAfter, sa)
 }
@@ -212,6 +220,13 @@ func runCaseBody(t tcase) (out []string) {
 		opts = append(opts, eventbus.WithObservability(&obsImpl{}))
 	}
 	bus = eventbus.New(opts...)
+	foreign := 0
+	if t.SecondBus {
+		// opts[0], opts[1] are the store and the timeout: the very same option values
+		other := eventbus.New(opts[0], opts[1], eventbus.WithPersistenceErrorHandler(func(any, reflect.Type, error) { foreign++ }))
+		eventbus.Subscribe(other, func(Ev) {})
+		_ = other
+	}
 	if t.Handler && t.LateSet {
 		bus.SetPersistenceErrorHandler(eh)
 	}
@@ -335,6 +350,9 @@ func runCaseBody(t tcase) (out []string) {
 			lastOff = evs[len(evs)-1].Offset
 		}
 	}
+	if foreign != 0 {
+		bad("the persistence error handler of a second bus built from the same option values was called %d times for failures of the first bus", foreign)
+	}
 	if oldCalls != 0 {
 		bad("a persistence error handler that was replaced with SetPersistenceErrorHandler was still called %d times", oldCalls)
 	}
@@ -374,6 +392,7 @@ func cases(thorough bool) []tcase {
 					l = append(l, tcase{Pattern: p, Handler: hd, Preloaded: pre})
 					if pre == 0 {
 						l = append(l, tcase{Pattern: p, Handler: hd, Observed: true})
+						l = append(l, tcase{Pattern: p, Handler: hd, SecondBus: true})
 					}
 					if hd {
 						l = append(l, tcase{Pattern: p, Handler: hd, Preloaded: pre, LateSet: true})
